@@ -302,7 +302,7 @@ class C08:
                     fail_after[str(i)] = rng.randrange(0, outs[i] + 1)
             if kind in ("abandon", "both"):
                 tot = sum(outs)
-                consumer = {"mode": "abandon", "k": rng.randrange(0, max(1, tot))}
+                consumer = {"mode": "abandon", "k": rng.randrange(0, max(1, tot)), "how": weighted(rng, [("close", 2), ("ctrl_c", 1)])}
         # one run in seven first makes an EARLIER call on the same Multiprocessor instance (which fails or completes); the call that is
         # judged is the second one: "every call" of the statement includes calls on an instance that has been used before.
         # (Not generated: an earlier call that was ABANDONED. Its workers stay blocked on the input queue for good - daemons, by design - and
@@ -412,7 +412,17 @@ class C08:
                             break
                     sim.count("fault.consumer_abandon")
                     try:
-                        if hasattr(it, "close"):
+                        if cfg["consumer"].get("how") == "ctrl_c" and hasattr(it, "throw"):
+                            # the consumer is hit by a Ctrl-C while it handles an output: the interrupt reaches the suspended call
+                            sim.count("fault.consumer_ctrl_c")
+                            try:
+                                it.throw(KeyboardInterrupt())
+                                obs["close_exc"] = RuntimeError("the KeyboardInterrupt thrown into the call was swallowed")
+                            except KeyboardInterrupt:
+                                pass
+                            except StopIteration:
+                                obs["close_exc"] = RuntimeError("the KeyboardInterrupt thrown into the call was swallowed (the call just ended)")
+                        elif hasattr(it, "close"):
                             it.close()
                         obs["closed"] = True
                     except Exception as e:          # close() must not raise
